@@ -371,6 +371,30 @@ theorem low_bit_normal (sg : Bool) {q s : Nat} (hq : 2 ^ 52 ≤ q) (hq' : q < 2 
   rw [one_u64, land_natCast _ _ (bitsVal_lt sg hq' hs) (by decide)]
   rw [Nat.and_one_is_mod, bitsVal_parity sg hq, beq_zero_natCast]
 
+/-! the same three facts stated on the magnitude `n` itself (`Nat.log2` form) -/
+
+theorem biased_exponent_wf (sg : Bool) {n : Nat} (hn : 2 ^ 52 ≤ n) (hr : Rep n) (hm : n ≤ maxFin) :
+    (RCast.cast ((F64.to_bits (fin sg n) >>> (52 : I32)) &&& base.EXPONENT_MASK) : I16)
+      = ⟨((Nat.log2 n - 51 : Nat) : Int)⟩ := by
+  obtain ⟨q, s, rfl, hq, hq', hs⟩ := wf_normal_decomp hn hr hm
+  rw [biased_exponent_normal sg hq hq' hs, log2_binade0 hq hq',
+    show s + 52 - 51 = s + 1 by omega]
+
+theorem mantissa_zero_wf (sg : Bool) {n : Nat} (hn : 2 ^ 52 ≤ n) (hr : Rep n) (hm : n ≤ maxFin) :
+    ((F64.to_bits (fin sg n) &&& base.MANTISSA_MASK) ==. (0 : U64)) = decide (n = 2 ^ Nat.log2 n) := by
+  obtain ⟨q, s, rfl, hq, hq', hs⟩ := wf_normal_decomp hn hr hm
+  rw [mantissa_zero_normal sg hq hq' hs, log2_binade0 hq hq']
+  apply decide_eq_decide.2
+  have hP := two_pow_pos s
+  rw [Nat.pow_add, Nat.mul_comm (2 ^ s) (2 ^ 52), Nat.mul_left_inj (by omega)]
+
+theorem low_bit_wf (sg : Bool) {n : Nat} (hn : 2 ^ 52 ≤ n) (hr : Rep n) (hm : n ≤ maxFin) :
+    ((F64.to_bits (fin sg n) &&& (1 : U64)) ==. (0 : U64))
+      = decide ((n / 2 ^ (Nat.log2 n - 52)) % 2 = 0) := by
+  obtain ⟨q, s, rfl, hq, hq', hs⟩ := wf_normal_decomp hn hr hm
+  rw [low_bit_normal sg hq hq' hs, log2_binade0 hq hq', Nat.add_sub_cancel,
+    Nat.mul_div_cancel _ (two_pow_pos s)]
+
 /-! ## the `i16 → f64` cast and `exp2` on it -/
 
 theorem ofInt_small (k : Int) (hk : k.natAbs < 2 ^ 53) :
